@@ -84,17 +84,40 @@ def lit(text_or_val):
 
 
 class Fn:
-    def __init__(self, src, node, name, params_hint=None):
+    def __init__(self, src, node, name, opts=None):
+        opts = opts or {}
+        self.given = set(opts.get("given", []))     # optional arguments that are passed (not None)
+        self.static = dict(opts.get("static", {}))  # arguments fixed to a constant (e.g. string selectors)
+        self.is_range = bool(opts.get("range"))     # returns (low, high) with -inf/+inf rendered as None
         self.src = src
         self.node = node
         self.name = name
         self.params = []          # T-valued parameters in order of first use (self.x -> x)
-        self.args = [a.arg for a in node.args.args if a.arg != "self"]
+        self.args = [a.arg for a in node.args.args if a.arg != "self" and a.arg not in self.static]
+        self.defaults = {}
+        pos = [a.arg for a in node.args.args]
+        for a, d in zip(pos[len(pos) - len(node.args.defaults):], node.args.defaults):
+            self.defaults[a] = d
         self.masked = {}          # name -> mask expr string it was indexed with
         self.env = {}             # local name -> coq name (shadowing by let)
         self.bools = set()        # local names holding booleans
         self.optional = any(isinstance(n, ast.Return) and isinstance(n.value, ast.Constant) and n.value.value is None
                             for n in ast.walk(node))
+
+    def static_test(self, e):
+        """`x is None` / `x is not None` for optional arguments, `x == "str"` for static selectors"""
+        if not (isinstance(e, ast.Compare) and len(e.ops) == 1 and isinstance(e.left, ast.Name)):
+            return None
+        n, o, r = e.left.id, e.ops[0], e.comparators[0]
+        if isinstance(r, ast.Constant) and r.value is None and isinstance(o, (ast.Is, ast.IsNot)) and n in self.defaults:
+            d = self.defaults[n]
+            isnone = (isinstance(d, ast.Constant) and d.value is None) and n not in self.given
+            if n in self.given or not (isinstance(d, ast.Constant) and d.value is None):
+                isnone = False
+            return isnone if isinstance(o, ast.Is) else not isnone
+        if n in self.static and isinstance(r, ast.Constant) and isinstance(o, (ast.Eq, ast.NotEq)):
+            return (self.static[n] == r.value) if isinstance(o, ast.Eq) else (self.static[n] != r.value)
+        return None
 
     def is_mask(self, e):
         try:
@@ -157,6 +180,9 @@ class Fn:
         if isinstance(e, ast.Compare):
             if len(e.ops) != 1:
                 raise TranslateError("chained comparison")
+            st = self.static_test(e)
+            if st is not None:
+                return ("true" if st else "false", "B")
             l, _ = self.ex(e.left, mask)
             r, _ = self.ex(e.comparators[0], mask)
             o = e.ops[0]
@@ -190,6 +216,9 @@ class Fn:
         if isinstance(e, ast.Call):
             return self.call(e, mask)
         if isinstance(e, ast.IfExp):
+            st = self.static_test(e.test)
+            if st is not None:
+                return self.ex(e.body if st else e.orelse, mask)
             c, _ = self.ex(e.test, mask)
             a, ka = self.ex(e.body, mask)
             b, kb = self.ex(e.orelse, mask)
@@ -221,7 +250,15 @@ class Fn:
         if fname == "expm1" and len(args) == 1:
             return ("(fexpm1 O %s)" % self.ex(args[0], mask)[0], "T")
         if fname in KNOWN_FUNCS:
-            return ("(%s %s)" % (KNOWN_FUNCS[fname], " ".join(self.ex(a, mask)[0] for a in args)), "T")
+            cname, cargs, cdefs = KNOWN_FUNCS[fname]
+            if e.keywords or len(args) > len(cargs):
+                raise TranslateError("call to %s with keywords / too many arguments" % fname)
+            codes = [self.ex(a, mask)[0] for a in args]
+            for an in cargs[len(args):]:
+                if an not in cdefs:
+                    raise TranslateError("call to %s: missing argument %s" % (fname, an))
+                codes.append(cdefs[an])
+            return ("(%s %s)" % (cname, " ".join(codes)), "T")
         if fname in IDENT or fname == "float":
             return self.ex(args[0], mask)
         if fname in UN and len(args) == 1:
@@ -244,6 +281,8 @@ class Fn:
         if fname == "sign" and len(args) == 1:
             a = self.ex(args[0], mask)[0]
             return ("(fsign O %s)" % a, "T")
+        if fname in ("min", "max", "mean", "var", "sum", "std"):
+            raise TranslateError("reduction %s" % fname)
         if fname in ("zeros_like", "empty_like"):   # empty_like: every cell is assumed assigned before it is read
             return ("(n0 O)", "T")
         if fname in ("ones_like",):
@@ -278,6 +317,17 @@ class Fn:
                 if not self.optional:
                     raise TranslateError("return None")
                 return "None"
+            if self.is_range:
+                if not (isinstance(s.value, ast.Tuple) and len(s.value.elts) == 2):
+                    raise TranslateError("range function must return a 2-tuple")
+                parts = []
+                for el in s.value.elts:
+                    d = ast.dump(el)
+                    if "attr='inf'" in d and isinstance(el, (ast.Attribute, ast.UnaryOp)):
+                        parts.append("None")
+                    else:
+                        parts.append("Some %s" % self.ex(el)[0])
+                return "(%s, %s)" % tuple(parts)
             c = self.ex(s.value)[0]
             return ("Some %s" % c) if self.optional else c
         if isinstance(s, ast.Assign) and len(s.targets) == 1:
@@ -315,6 +365,12 @@ class Fn:
             c, _ = self.ex(e)
             return "let %s := %s in\n%s" % (s.target.id, c, self.block(rest))
         if isinstance(s, ast.If):
+            if not s.orelse and all(isinstance(b, ast.Expr) and isinstance(b.value, ast.Call) and
+                                    getattr(b.value.func, "attr", getattr(b.value.func, "id", "")) == "warn" for b in s.body):
+                return self.block(rest)      # a warning has no effect on the returned value
+            st = self.static_test(s.test)
+            if st is not None:
+                return self.block((s.body if st else s.orelse) + rest)
             c, k = self.ex(s.test)
             if k != "B":
                 raise TranslateError("if on non-boolean")
@@ -335,7 +391,7 @@ class Fn:
         ps = "".join(" (%s : T)" % p for p in self.params) + "".join(" (%s : T)" % a for a in self.args)
         return "(* %s: parameters (self attributes): %s ; arguments: %s *)\nDefinition %s%s : %s :=\n%s." % (
             self.name, ", ".join(self.params) or "-", ", ".join(self.args) or "-", self.name, ps,
-            "option T" if self.optional else "T", textwrap.indent(body, "  "))
+            "option T * option T" if self.is_range else ("option T" if self.optional else "T"), textwrap.indent(body, "  "))
 
 
 def ends_ret(stmts):
@@ -353,14 +409,14 @@ def find(tree, cls, fn):
     return None
 
 
-def translate_function(path, cls, fn, coqname):
+def translate_function(path, cls, fn, coqname, opts=None):
     src = open(path).read()
     tree = ast.parse(src)
     node = find(tree, cls, fn)
     if node is None:
         raise TranslateError("%s.%s not found in %s" % (cls, fn, path))
-    # properties: skip decorators
-    return Fn(src, node, coqname).emit()
+    f = Fn(src, node, coqname, opts)
+    return f.emit(), f
 
 
 HEADER = """(* GENERATED by /verif/tools/py2coq.py from /repo/src/gstools — do not edit *)
@@ -378,12 +434,20 @@ def translate_all(repo, table):
     out = [HEADER]
     errs = {}
     KNOWN_FUNCS.clear()
-    for rel, cls, fn, name in table:
+    for entry in table:
+        rel, cls, fn, name = entry[:4]
+        opts = entry[4] if len(entry) > 4 else None
         try:
-            out.append(translate_function(os.path.join(repo, "src/gstools", rel), cls, fn, name))
+            txt, f = translate_function(os.path.join(repo, "src/gstools", rel), cls, fn, name, opts)
+            out.append(txt)
             out.append("")
-            if cls is None:
-                KNOWN_FUNCS[fn] = name
+            if cls is None and not f.params and not f.optional and not f.is_range:
+                cdefs = {}
+                for an in f.args:
+                    d = f.defaults.get(an)
+                    if isinstance(d, ast.Constant) and isinstance(d.value, (int, float)) and not isinstance(d.value, bool):
+                        cdefs[an] = lit(d.value if isinstance(d.value, int) else repr(d.value))
+                KNOWN_FUNCS.setdefault(fn, (name, list(f.args), cdefs))
         except (TranslateError, SyntaxError, OSError) as e:
             errs[name] = "%s: %s" % (type(e).__name__, e)
             out.append("(* %s: NOT TRANSLATED (%s) *)\n" % (name, errs[name].replace("*)", "* )")))
